@@ -225,6 +225,40 @@ impl<K: SimKernel<D>, const D: usize> Monitor<K, D> for C19<K, D> {
                 }
             }
         }
+        // every bounded loop reports, per iteration, its ordinal and the budget the library holds
+        // for it (hook H-tick `iter`): an ordinal beyond that budget means the budget is not
+        // enforced; a budget beyond the shipped constant (when the run sets no knob for it) means
+        // the constant itself went away.
+        {
+            let knob_set = |name: &str| ctx.oprec.knobs.iter().any(|(k, _)| k == name);
+            let debug_build = ctx.header.profile == "simdebug";
+            for (kind_name, max_ord, max_budget, excess) in &out.loop_iters {
+                let e = ctx.stats.counters.entry(format!("c19.max_iteration_ordinal.{kind_name}")).or_insert(0);
+                *e = (*e).max(*max_ord);
+                if *excess > 0 {
+                    push_violation(
+                        ctx.violations,
+                        violation("C19", "loop-exceeds-its-budget", ctx.step, format!("op={kind}|loop={kind_name}"), format!("{kind}: loop {kind_name} entered iteration {max_ord} although the library's own budget for it is {max_budget} (excess {excess}; knobs {:?})", ctx.oprec.knobs)),
+                    );
+                }
+                let shipped: Option<(u64, &str)> = match kind_name.as_str() {
+                    "locate.walk" => Some((10_000, "locate.max_steps")),
+                    "insert.cavity_iter" => Some((32, "insert.max_cavity_iterations")),
+                    "insert.repair_iter" => Some((10, "insert.max_repair_iterations")),
+                    "rebuild.attempt" => Some((if debug_build { 6 } else { 2 }, "rebuild.attempts")),
+                    _ => None,
+                };
+                if let Some((limit, knob_name)) = shipped
+                    && !knob_set(knob_name)
+                    && *max_budget > limit
+                {
+                    push_violation(
+                        ctx.violations,
+                        violation("C19", "budget-larger-than-shipped", ctx.step, format!("op={kind}|loop={kind_name}"), format!("{kind}: loop {kind_name} runs under a budget of {max_budget}, the shipped constant is {limit}")),
+                    );
+                }
+            }
+        }
         ctx.stats.add("c19.max_ticks_seen", 0);
         let e = ctx.stats.counters.entry("c19.max_ticks_per_op".into()).or_insert(0);
         if out.ticks > *e {
